@@ -224,7 +224,7 @@ def directed_acts(rng, clients, locks):
 
     def grab(c):
         return [['tryAcquire', c, l], ['commit', c]] + everybody_applies
-    kind = rng.choice(['expired-own', 'late-answer', 'foreign-release', 'expired-other'])
+    kind = rng.choice(['expired-own', 'late-answer', 'foreign-release', 'expired-other', 'late-prolong', 'snap-contender'])
     acts = grab(a)
     if kind == 'expired-own':
         # nobody prolongs for longer than U; the former holder asks again, then somebody else does
@@ -234,6 +234,12 @@ def directed_acts(rng, clients, locks):
     elif kind == 'late-answer':
         acts = [['tryAcquire', a, l]] + [['tick']] * (U // 2 + rng.randint(1, 2)) + [['commit', a]] + everybody_applies
         acts += [['prolong', a], ['commit', a]] + everybody_applies + [['commit', a]] + everybody_applies + grab(b)
+    elif kind == 'late-prolong':
+        # the holder's prolongation comes after the lock has lapsed and is the first command anybody sees since
+        acts += [['tick']] * (U + rng.randint(1, 3)) + [['prolong', a], ['commit', a]] + everybody_applies + grab(b) + [['tick']] + grab(a)
+    elif kind == 'snap-contender':
+        # the contender's replica has just been rebuilt from its snapshot
+        acts += [['snap', b], ['snap', rng.choice(clients)]] + grab(b) + [['tick']] + grab(a)
     else:
         acts += [['release', b, l], ['commit', b]] + everybody_applies + grab(b)
     return acts + random_acts(rng, clients, locks, rng.randint(5, 30))
